@@ -42,8 +42,9 @@ TRUSTED = ['Section hypotheses of props/C12.v: FL1 (v == 0.0 + v numerically, Na
            'outside the model); float(le) / floatToGoString(bound) answered by CPython as tables (as in C08)',
            'the cached _value of a live MmapedValue equals its file cell (C09_continues_from_file): the composition model reads '
            'the cell; bridged to Values.step by C12_cell_ops_are_values_steps',
-           'counts_small (histogram count cells of the final state below 2^53) is a hypothesis of C12_equiv; that it follows from '
-           'a history of fewer than 2^53 observations is not proved',
+           'counts_small (histogram count cells of the final state below 2^53) is a hypothesis of C12_equiv; C12_equiv_observes / '
+           'C12_equiv_hist_len replace it by `fewer than 2^53 observe() calls` / `a history shorter than 2^53` '
+           '(C12_counts_bounded_by_observes, proofs/EquivLenProofs.v)',
            'OCaml float + < <= = (compared with CPython on every case)']
 ASSUMPTIONS = ['one process, one thread, one registry: family names pairwise distinct and no sample-name collisions (C06)',
                'label names of a family pairwise distinct; `le` (histogram) and `quantile` (summary) are reserved by the library',
